@@ -23,33 +23,33 @@ open Pixman.Model.Extent
 /-! ## the flag word of one image -/
 
 theorem is_opaque_flag (i : Img) :
-    i.flags.testBit 13 = (typeEff i.cr i.props (affineFlag i.props) 13 && !killed i.props i.amFormat) := by
+    i.flags.testBit 13 = (typeEff i.cr i.props 13 && !killed i.props i.amFormat) := by
   unfold Img.flags
-  rw [flags_tb _ _ _ 13 (by unfold Tracked; decide) (by decide)]
+  rw [flags_tb _ _ _ 13 (by unfold Tracked; decide)]
   simp [closed, kill]
 
 theorem samples_opaque_flag (i : Img) :
     i.flags.testBit 7 = (i.cr.kind == .bits && alphaLess i.cr.format && !killed i.props i.amFormat) := by
   unfold Img.flags
-  rw [flags_tb _ _ _ 7 (by unfold Tracked; decide) (by decide)]
+  rw [flags_tb _ _ _ 7 (by unfold Tracked; decide)]
   cases hk : i.cr.kind <;> simp [closed, kill, typeEff, hk]
 
 /-- `compute_image_info` never sets the two SAMPLES_COVER_CLIP bits: they come from `analyze_extent` alone -/
 theorem cover_bits_clear (i : Img) : i.flags.testBit 23 = false ∧ i.flags.testBit 24 = false := by
   unfold Img.flags
-  rw [flags_tb _ _ _ 23 (by unfold Tracked; decide) (by decide), flags_tb _ _ _ 24 (by unfold Tracked; decide) (by decide)]
+  rw [flags_tb _ _ _ 23 (by unfold Tracked; decide), flags_tb _ _ _ 24 (by unfold Tracked; decide)]
   cases hk : i.cr.kind <;> simp [closed, kill, typeEff, hk]
 
 /-- `FAST_PATH_AFFINE_TRANSFORM`: no transform, or last matrix row (0, 0, 1) -/
 theorem affine_flag (i : Img) : i.flags.testBit 17 = affineFlag i.props := by
   unfold Img.flags
-  rw [flags_tb _ _ _ 17 (by unfold Tracked; decide) (by decide)]
+  rw [flags_tb _ _ _ 17 (by unfold Tracked; decide)]
   cases hk : i.cr.kind <;> simp [closed, kill, typeEff, hk]
 
 /-- `FAST_PATH_ID_TRANSFORM` is set exactly when the image has no transform (C14 invariant, from the model) -/
 theorem id_transform_flag (i : Img) : i.flags.testBit 0 = i.props.transform.isNone := by
   unfold Img.flags
-  rw [flags_tb _ _ _ 0 (by unfold Tracked; decide) (by decide)]
+  rw [flags_tb _ _ _ 0 (by unfold Tracked; decide)]
   cases hk : i.cr.kind <;> simp [closed, kill, typeEff, hk]
 
 /-- the hypothesis `hid` of C04's cover theorems, discharged: what `analyze_extent` reads as "identity" has no transform -/
@@ -90,28 +90,19 @@ example : (Img.flags ⟨{ kind := .bits, format := 0x20020888, width := 4, heigh
 example : (Img.flags ⟨{ kind := .bits, format := 0x20020888, width := 4, height := 4 }, { repeat_ := 0 }, none⟩).testBit 13 = false := by decide
 example : (Img.flags ⟨{ kind := .bits, format := 0x20028888, width := 4, height := 4 }, { repeat_ := 1 }, none⟩).testBit 13 = false := by decide
 
-/-- a gradient is flagged opaque only when every stop has alpha 0xffff, a repeat mode is set, it is not a radial
-gradient with `a ≥ 0` (part of the plane without colour) and — radial gradients only, a7be4c7 — its transform is affine
-(under a projective transform `radial_get_scanline` clears a pixel whose homogeneous coordinate is 0).
-(`_partial` kept in the name for the obligation lists: what the renderers then paint is `Props/C09Gradient`.) -/
+/-- PARTIAL (the gradient *renderers* are not connected here: C13 owns them): a gradient is flagged opaque only when
+every stop has alpha 0xffff, a repeat mode is set and it is not a radial gradient with `a ≥ 0` (part of the plane
+without colour). -/
 theorem gradient_flag_sound_partial (i : Img) (hk : i.cr.kind ≠ .solid ∧ i.cr.kind ≠ .bits) (h : i.flags.testBit 13 = true) :
-    (∀ s ∈ i.cr.stops, s.c.a = 0xffff) ∧ i.props.repeat_ ≠ PIXMAN_REPEAT_NONE ∧ ¬ (i.cr.kind = .radial ∧ i.cr.radialA ≥ 0) ∧
-    (i.cr.kind = .radial → affineFlag i.props = true) := by
+    (∀ s ∈ i.cr.stops, s.c.a = 0xffff) ∧ i.props.repeat_ ≠ PIXMAN_REPEAT_NONE ∧ ¬ (i.cr.kind = .radial ∧ i.cr.radialA ≥ 0) := by
   rw [is_opaque_flag] at h
   cases hq : i.cr.kind <;> simp [typeEff, gradOpaque, hq] at h hk ⊢ <;> (try exact absurd rfl hk.1) <;> (try exact absurd rfl hk.2)
   all_goals first
     | exact ⟨h.1.2, h.1.1⟩
-    | exact ⟨h.1.2, h.1.1.2, h.1.1.1.1, h.1.1.1.2⟩
+    | exact ⟨h.1.2, h.1.1.2, h.1.1.1⟩
 example : (Img.flags ⟨{ kind := .linear, stops := [⟨0, ⟨0, 0, 0, 0xffff⟩⟩, ⟨65536, ⟨0, 0, 0, 0xffff⟩⟩] }, { repeat_ := 2 }, none⟩).testBit 13 = true := by decide
 example : (Img.flags ⟨{ kind := .linear, stops := [⟨0, ⟨0, 0, 0, 0xffff⟩⟩, ⟨65536, ⟨0, 0, 0, 0xfffe⟩⟩] }, { repeat_ := 2 }, none⟩).testBit 13 = false := by decide
 example : (Img.flags ⟨{ kind := .radial, radialA := 0, stops := [⟨0, ⟨0, 0, 0, 0xffff⟩⟩] }, { repeat_ := 2 }, none⟩).testBit 13 = false := by decide
-/-- a7be4c7 (finding C09-F3): a radial gradient with `a < 0`, opaque stops and a repeat mode is flagged under an affine
-transform and NOT under a projective one (the matrix of corpus/opacity/radial-projective-w-zero.txt); a linear one still is -/
-example : (Img.flags ⟨{ kind := .radial, radialA := -1, stops := [⟨0, ⟨0, 0, 0, 0xffff⟩⟩] }, { repeat_ := 3 }, none⟩).testBit 13 = true ∧
-    (Img.flags ⟨{ kind := .radial, radialA := -1, stops := [⟨0, ⟨0, 0, 0, 0xffff⟩⟩] },
-      { repeat_ := 3, transform := some ⟨65536, 0, 0, 0, 65536, 0, -65536, 0, 98304⟩ }, none⟩).testBit 13 = false ∧
-    (Img.flags ⟨{ kind := .linear, stops := [⟨0, ⟨0, 0, 0, 0xffff⟩⟩] },
-      { repeat_ := 3, transform := some ⟨65536, 0, 0, 0, 65536, 0, -65536, 0, 98304⟩ }, none⟩).testBit 13 = true := by decide
 
 /-! ## the regenerated promotion block -/
 
